@@ -199,7 +199,7 @@ func judgeUnits(r *kit.Run, costs unitCosts, tx *chain.Transaction, sponsor stat
 
 func partUnits(r *kit.Run) {
 	rng := r.Rand("units")
-	n := r.N(30000, 600000)
+	n := r.N(30000, 400000)
 	parser := &chainfx.Parser{}
 	for i := 0; i < n; i++ {
 		var costs unitCosts
@@ -352,7 +352,7 @@ func runConsumeCase(r *kit.Run, c c12ConsumeCase) (accepted, refused int, kinds 
 
 func partConsume(r *kit.Run) {
 	rng := r.Rand("consume")
-	n := r.N(30000, 600000)
+	n := r.N(30000, 400000)
 	for i := 0; i < n; i++ {
 		c := c12ConsumeCase{Part: "consume"}
 		var st fees.Dimensions
@@ -478,7 +478,7 @@ func checkHistory(r *kit.Run, h c12History) {
 
 func partConcurrent(r *kit.Run) {
 	rng := r.Rand("concurrent")
-	n := r.N(6000, 60000)
+	n := r.N(6000, 40000)
 	for i := 0; i < n; i++ {
 		clients := 2 + rng.IntN(3)
 		perClient := 3 + rng.IntN(6)
@@ -695,7 +695,7 @@ func firstOvershoot(units [][5]uint64, lim fees.Dimensions) (int, [5]uint64) {
 func partBlocks(r *kit.Run) {
 	ctx := context.Background()
 	rng := r.Rand("blocks")
-	n := r.N(250, 4000)
+	n := r.N(250, 2500)
 	cfgPool := []int{1, 2, 4, 8}
 	for ci := 0; ci < n; ci++ {
 		rules := blockRules()
@@ -852,7 +852,7 @@ func limShape(lim fees.Dimensions, sum, u [5]uint64) string {
 func partBuilder(r *kit.Run) {
 	ctx := context.Background()
 	rng := r.Rand("builder")
-	n := r.N(120, 1500)
+	n := r.N(120, 1000)
 	for ci := 0; ci < n; ci++ {
 		rules := blockRules()
 		rules.ValidityWindow = 3_600_000 // transactions expire an hour after they are generated
